@@ -421,7 +421,8 @@ def datum_mod_defined(mod, v):
     if mod is None or mod == "dtype":
         return True
     if mod == "length":
-        return isinstance(v, (str, list, dict))
+        # every sized value a YAML / Python document can hold: `!!set` and `!!binary` load as set / bytes, API users pass tuples
+        return isinstance(v, (str, list, dict, tuple, bytes, set, frozenset))
     return isinstance(v, dict)
 
 
